@@ -41,7 +41,7 @@ typedef enum varintDimensionPacked {
  * The top 4 bits are the row width, the next 3 bits are the col width, and the
  * last bit is set iff we are a sparse representation. */
 #define VARINT_DIMENSION_PAIR_WIDTH_ROW_COUNT(dim) ((dim) >> 4)
-#define VARINT_DIMENSION_PAIR_WIDTH_COL_COUNT(dim) ((((dim) >> 1) & 0x03) + 1)
+#define VARINT_DIMENSION_PAIR_WIDTH_COL_COUNT(dim) ((((dim) >> 1) & 0x07) + 1)
 #define VARINT_DIMENSION_PAIR_IS_SPARSE(dim) ((dim) & 0x01)
 
 #define VARINT_DIMENSION_PAIR_PAIR(x, y, sparse)                               \
